@@ -223,6 +223,8 @@ impl Exec {
     }
 
     pub fn builder(&self, cache: u64) -> redb::Builder {
+        // thread-local: every simulated run lives on one worker thread from open to close
+        redb::verif_knobs::set_freed_pages_chunk_size(self.cfg.freed_chunk as usize);
         let mut b = Database::builder();
         b.verif_set_page_size(self.cfg.page_size as usize);
         if let Some(rp) = self.cfg.region_pages {
